@@ -333,11 +333,12 @@ class DescriptorTransaction(_TransactionBase):
                         self._increment_parent_descriptor_version(proc, orig_descriptor)
                 else:
                     # this is an update operation
-                    proc.descr_updated.append(new_descriptor)
                     self._logger.debug(  # noqa: PLE1205
                         'transaction_manager: update descriptor Handle={}, DescriptorVersion={}',
                         new_descriptor.Handle, new_descriptor.DescriptorVersion)
-                    orig_descriptor.update_from_other_container(new_descriptor)
+                    # use copies: mdib, transaction object and published result must not share nested values
+                    orig_descriptor.update_from_other_container(new_descriptor.mk_copy())
+                    proc.descr_updated.append(orig_descriptor.mk_copy())
                     self._update_corresponding_state(orig_descriptor)
                     self._mdib.descriptions.update_object_no_lock(orig_descriptor)
             for updates_dict, dest_list in ((self.alert_state_updates, proc.alert_updates),
